@@ -34,15 +34,21 @@ DICTS = [("FIX44", "tests/FIX44.xml"), ("TT", "tests/TT-FIX44.xml")]
 SOURCES = ["asyncfix/protocol/schema.py", "tests/FIX44.xml", "tests/TT-FIX44.xml"]
 
 
-def _member(schema, owner, key, val, path):
+def _member(schema, owner, key, val, path, strict):
     from asyncfix.protocol.schema import SchemaField, SchemaGroup
 
     if key is not val:
         raise ValueError("member key is not the member object at %s" % path)
     req = owner.required[key]
-    if not isinstance(req, bool):
-        raise ValueError("required[%s] at %s is a %s, not a bool (ledger D3: the parser stores the group's "
-                         "member dict as its required flag)" % (getattr(val, "name", val), path, type(req).__name__))
+    declared = val.field_required if isinstance(val, SchemaGroup) else req
+    if strict:
+        if not isinstance(req, bool):
+            raise ValueError("required[%s] at %s is a %s, not a bool (ledger D3: the parser stores the group's "
+                             "member dict as its required flag)" % (getattr(val, "name", val), path, type(req).__name__))
+        if req != declared:
+            raise ValueError("required[%s] at %s differs from the group's declared flag" % (val.name, path))
+    else:
+        req = bool(declared)      # what the dictionary declares (used by the harness oracle)
     if isinstance(val, SchemaField):
         if schema._tag2field.get(val.tag) is not val:
             raise ValueError("member field %s at %s is not the object of the field table" % (val, path))
@@ -52,13 +58,15 @@ def _member(schema, owner, key, val, path):
             raise ValueError("group field %s at %s is not the object of the field table" % (val.field, path))
         if list(val.members.keys()) != list(val.required.keys()):
             raise ValueError("members/required keys differ in group %s at %s" % (val.name, path))
-        sub = [_member(schema, val, k, v, path + "/" + val.name) for k, v in val.members.items()]
+        sub = [_member(schema, val, k, v, path + "/" + val.name, strict) for k, v in val.members.items()]
         return ("G", val.field.tag, req, sub)
     raise ValueError("unexpected member type %s at %s" % (type(val).__name__, path))
 
 
-def dump(schema):
-    """Plain-data dump of a parsed FIXSchema (see module docstring)."""
+def dump(schema, strict=True):
+    """Plain-data dump of a parsed FIXSchema (see module docstring).  strict=False (harness oracle):
+    the required flag of a group is the one the dictionary declares (SchemaGroup.field_required)
+    even if the entry validate consults is something else."""
     from asyncfix.protocol.schema import SchemaSet
 
     fields = []
@@ -72,7 +80,7 @@ def dump(schema):
     def members(owner, path):
         if list(owner.members.keys()) != list(owner.required.keys()):
             raise ValueError("members/required keys differ in %s" % path)
-        return [_member(schema, owner, k, v, path) for k, v in owner.members.items()]
+        return [_member(schema, owner, k, v, path, strict) for k, v in owner.members.items()]
 
     msgs = []
     for mt, m in schema._messages_types.items():
@@ -99,9 +107,9 @@ def load(rel_or_tree):
         return FIXSchema(rel_or_tree)
 
 
-def load_plain(rel):
+def load_plain(rel, strict=True):
     s = load(rel)
-    return s, dump(s)
+    return s, dump(s, strict)
 
 
 # ------------------------------------------------------------------------------------ Coq text
